@@ -81,6 +81,8 @@ pub fn footer() -> impl Strategy<Value = BytesSpec> {
         4 => Just(BytesSpec::empty()),
         5 => (1u32..=80, fill(), any::<u32>()).prop_map(|(len, fill, seed)| BytesSpec { len, fill, seed }),
         1 => (81u32..=1000, fill(), any::<u32>()).prop_map(|(len, fill, seed)| BytesSpec { len, fill, seed }),
+        // long footers / assertions: around the powers of two up to 64 KiB (size limits live there)
+        1 => ((10u32..=16, 0u32..=2).prop_map(|(e, d)| (1u32 << e) + d - 1), fill(), any::<u32>()).prop_map(|(len, fill, seed)| BytesSpec { len, fill, seed }),
     ]
 }
 
@@ -105,7 +107,7 @@ pub fn password() -> impl Strategy<Value = BytesSpec> {
         1 => (65u32..=300, fill(), any::<u32>()).prop_map(|(len, fill, seed)| BytesSpec { len, fill, seed }),
         // lengths at the block / digest sizes of the MACs and KDFs that consume a password or key
         // (HMAC-SHA384 block 128 and digest 48, BLAKE2b key 64 / block 128, SHA-256/512 sizes)
-        2 => (prop::sample::select(vec![31u32, 32, 33, 47, 48, 49, 63, 64, 65, 95, 96, 97, 111, 112, 127, 128, 129, 255, 256, 257]), fill(), any::<u32>()).prop_map(|(len, fill, seed)| BytesSpec { len, fill, seed }),
+        2 => (prop::sample::select(vec![31u32, 32, 33, 47, 48, 49, 63, 64, 65, 95, 96, 97, 111, 112, 127, 128, 129, 255, 256, 257, 1023, 1024, 1025, 4096, 65535, 65536, 65537]), fill(), any::<u32>()).prop_map(|(len, fill, seed)| BytesSpec { len, fill, seed }),
     ]
 }
 
